@@ -1,0 +1,38 @@
+//go:build verif
+
+// Contracts for package datasource (where ammo is read from), checked by /verif/govc. Comment-only: no code.
+package datasource
+
+//@ func (s *fileSource) OpenSource
+//@ props C08
+//@ at call s.fs.Open assert [the-configured-file] arg(name) == s.conf.Path
+//@ ensures [open-outcome-is-returned] wc == box(result_of(s.fs.Open, 0)) && err == result_of(s.fs.Open, 1)
+
+//@ func NewFile
+//@ props C08
+//@ ensures typeis(result, *fileSource) && result.(*fileSource).conf == conf && result.(*fileSource).fs.Fs == fs
+
+// stdin is handed out as it is and never closed by a provider.
+//@ func (f hideCloseFileSource) OpenSource
+//@ props C08
+//@ modifies nothing
+//@ ensures err == nil && wc == box(f)
+
+//@ func (f hideCloseFileSource) Close
+//@ props C08
+//@ modifies nothing
+//@ ensures [never-closes-the-process-stream] result == nil && calls(f.File.Close) == 0
+
+// An inline source is the configured text.
+//@ func NewInline
+//@ props C08
+//@ at call NewString assert arg(s) == conf.Data
+
+//@ struct FileConfig
+//@ props C17 C08
+//@ tag Path validate required
+//@ tag Path config path
+
+//@ struct InlineConfig
+//@ props C17 C08
+//@ tag Data validate required
